@@ -105,7 +105,8 @@ def _session(ctx, case):
     from netqasm.sdk.qubit import Qubit
     from netqasm.sdk.toolbox import parity_meas, set_qubit_state, t_inverse, toffoli_gate
     r = random.Random(case["seed"])
-    p = Pipe(hardware=case["hardware"], max_qubits=5, script=[], default_outcome=0)
+    # generic hardware: exactly three data qubits plus the ancilla of parity_meas fit; NV keeps a spare position for relocations
+    p = Pipe(hardware=case["hardware"], max_qubits=4 if case["hardware"] == "generic" else 5, script=[], default_outcome=0)
     p.conn.close()           # the first application comes and goes at once: the controller is now "used"
     slots = {}               # slot -> {"conn", "qs": [Qubit], "bits": [int], "pending": [(handle, expected, what)]}
     nslots = case["slots"]
@@ -146,7 +147,7 @@ def _session(ctx, case):
             elif len(qs) == 3 and r.random() < 0.45:
                 op = "toffoli"
             else:
-                op = r.choice(["parity", "parity", "tinv", "flush", "flush", "measure", "close"])
+                op = r.choice(["parity", "parity", "tinv", "flush", "flush", "measure", "measure1", "measure1", "close"])
             log.append((op, k))
             if op == "alloc" and len(qs) < 3:
                 q = Qubit(conn)
@@ -178,6 +179,12 @@ def _session(ctx, case):
             elif op == "tinv" and qs:
                 t_inverse(r.choice(qs))
             elif op == "flush":
+                check_flush(k)
+            elif op == "measure1" and qs:
+                # one qubit leaves: the others keep their ids, a hole opens below or between them
+                j = r.randrange(len(qs))
+                sl["pending"].append((qs[j].measure(), bits[j], f"measurement of a qubit in |{bits[j]}>"))
+                del qs[j], bits[j]
                 check_flush(k)
             elif op == "measure" and qs:
                 for q, b in zip(qs, bits):
